@@ -13,6 +13,9 @@ import c14_tissue_remesh as CTR
 import c14_population as CPOP
 import c14_dividecell as CDC
 
+THEOREMS_DIVISION_INVARIANTS = ["divideCellM_cellOk", "refineDaughter_invariants", "daughterLive_of_invariants", "divisionRoundD_invariants", "tissueIterationD2_invariants",
+                                "tissueRunD2_invariants", "stepOkTD_of_invariants", "stepOkTD2_of_invariants", "runOkTD2_of_invariants", "tissueRunD2_translate_of_invariants",
+                                "tetQ_daughtersOk"]
 THEOREMS_TISSUE_INVARIANTS = ["tissueIterationR_invariants", "physStage_invariants", "meshStageT_invariants", "refineLiveT_of_invariants", "cellMeshOk_of_invariants",
                               "stepOkTR_of_invariants", "runOkTR_of_invariants", "tissueRunR_invariants", "tissueRunR_translate_of_invariants",
                               "tissueIterationR_translate_of_invariants", "pairR_allOk", "pairR_quiet"]
@@ -50,6 +53,62 @@ def make_tissue(wd, r, kind, t):
     m = os.path.join(wd, "t.vtk")
     SC.write_vtk(m, cells)
     return m
+
+
+KEY_AXIS_SIGN = "C14:division-depends-on-the-sign-of-the-eigenvector"
+
+
+def box_mesh(nx, ny, nz, h, c):
+    """surface of a box of nx x ny x nz elements of size h centred at c, every boundary quad split in two outward triangles"""
+    ids, P, T = {}, [], []
+
+    def nid(i, j, k):
+        if (i, j, k) not in ids:
+            ids[(i, j, k)] = len(P)
+            P.append((c[0] + (i - nx / 2) * h, c[1] + (j - ny / 2) * h, c[2] + (k - nz / 2) * h))
+        return ids[(i, j, k)]
+
+    def quad(a, b, cq, d):
+        T.append((a, b, cq)); T.append((a, cq, d))
+    for i in range(nx):
+        for j in range(ny):
+            quad(nid(i, j, 0), nid(i, j + 1, 0), nid(i + 1, j + 1, 0), nid(i + 1, j, 0))
+            quad(nid(i, j, nz), nid(i + 1, j, nz), nid(i + 1, j + 1, nz), nid(i, j + 1, nz))
+    for i in range(nx):
+        for k in range(nz):
+            quad(nid(i, 0, k), nid(i + 1, 0, k), nid(i + 1, 0, k + 1), nid(i, 0, k + 1))
+            quad(nid(i, ny, k), nid(i, ny, k + 1), nid(i + 1, ny, k + 1), nid(i + 1, ny, k))
+    for j in range(ny):
+        for k in range(nz):
+            quad(nid(0, j, k), nid(0, j, k + 1), nid(0, j + 1, k + 1), nid(0, j + 1, k))
+            quad(nid(nx, j, k), nid(nx, j + 1, k), nid(nx, j + 1, k + 1), nid(nx, j, k + 1))
+    return P, T
+
+
+def axis_aligned_division(V, exe, stats):
+    """a columnar cell standing EXACTLY along z (its longest axis is +-z up to the sign the eigen-solver happens to return) that is above its
+    division volume at the start: it must divide in iteration 0 wherever it is placed"""
+    vol = 4e-6 * 5e-6 * 9e-6
+    counts = {}
+    for t in [(0.0, 0.0, 0.0), (1.3e-5, 2.1e-5, 3.7e-5), (2e-6, 1e-6, 1.2e-6), (0.0, 0.0, 1e-5), (1e-6, -2e-6, 2e-6)]:
+        with SC.Workdir() as wd:
+            P, T = box_mesh(4, 5, 9, 1e-6, t)
+            m = os.path.join(wd, "box.vtk")
+            SC.write_vtk(m, [(P, T, 0)])
+            params = SC.make_params(wd, m, "7.5e-7", {"perform_initial_triangulation": "0", "avg_division_volume": repr(0.7 * vol),
+                                                      "std_division_volume": "0", "std_growth_rate": "0"}, {})
+            res = SC.run(exe, params, 1, 1, 1)
+            what, key = SC.classify(res["rc"], res["err"])
+            if what:
+                V.fail_input("%s [columnar cell along z at %r]" % (what, t), {"part": "axis-aligned-division", "placement": t}, key=key)
+                return
+            snaps = SC.parse_states(res["out"])
+            counts[t] = snaps[-1]["ncells"] if snaps else None
+    stats["axis_aligned_division_cell_counts"] = {repr(k): v for k, v in counts.items()}
+    if len(set(counts.values())) > 1:
+        V.fail_input("a 4 x 5 x 9 um columnar cell standing along z, above its division volume, divides in iteration 0 or not depending on where it is placed: "
+                     "cells after one iteration %s" % ", ".join("%r -> %s" % (k, v) for k, v in counts.items()),
+                     {"part": "axis-aligned-division", "placements": [list(k) for k in counts], "cells_after_one_iteration": list(counts.values())}, key=KEY_AXIS_SIGN)
 
 
 def division_oracle(V, exe, r, tier, stats):
@@ -264,6 +323,9 @@ def run(ctx):
             V.fail_tie("proof", "leanchecker rejected SimuVerif.Properties.C14DivideCell", log=log)
     dividecell = {}
     CDC.run_dividecell(V, "thorough" if (tier == "thorough" or not proofDC["ok"]) else "quick", seed, dividecell)
+    proofDI = vlib.prove("C14DivisionInvariants", THEOREMS_DIVISION_INVARIANTS, NAMESPACE)
+    for f in proofDI["failures"]:
+        V.fail_tie("proof", "%s: %s" % (f["theorem"], f["reason"]), errors=proofDI["errors"][:5])
     proofTI = vlib.prove("C14TissueInvariants", THEOREMS_TISSUE_INVARIANTS, NAMESPACE)
     for f in proofTI["failures"]:
         V.fail_tie("proof", "%s: %s" % (f["theorem"], f["reason"]), errors=proofTI["errors"][:5])
@@ -271,7 +333,8 @@ def run(ctx):
     exe, rebuilt = SC.build("asan")
     divstats = {}
     division_oracle(V, exe, vlib.Rng(seed).fork("c14/division"), tier, divstats)
-    wide = tier == "thorough" or not (proof["ok"] and proofP["ok"] and proofT["ok"] and proofR["ok"] and proofTR["ok"] and proofI["ok"] and proofTI["ok"] and proofPop["ok"] and proofDiv["ok"] and proofDC["ok"])
+    axis_aligned_division(V, exe, divstats)
+    wide = tier == "thorough" or not (proof["ok"] and proofP["ok"] and proofT["ok"] and proofR["ok"] and proofTR["ok"] and proofI["ok"] and proofTI["ok"] and proofPop["ok"] and proofDiv["ok"] and proofDC["ok"] and proofDI["ok"])
     kinds = ["single", "separated", "adhering", "overlapping-mixed"]
     evaluations = 0
     distinct = set()
@@ -318,8 +381,8 @@ def run(ctx):
                 samples.append({"tissue": kind, "translation": t, "iterations": iters, "cells": ref[0]["ncells"] if ref else None})
     rcode, nviol = V.finish()
     cov = {
-        "obligations": proof["obligations"] + proofP["obligations"] + proofT["obligations"] + proofR["obligations"] + proofTR["obligations"] + proofI["obligations"] + proofTI["obligations"] + proofPop["obligations"] + proofDiv["obligations"] + proofDC["obligations"],
-        "discharged": proof["discharged"] + proofP["discharged"] + proofT["discharged"] + proofR["discharged"] + proofTR["discharged"] + proofI["discharged"] + proofTI["discharged"] + proofPop["discharged"] + proofDiv["discharged"] + proofDC["discharged"],
+        "obligations": proof["obligations"] + proofP["obligations"] + proofT["obligations"] + proofR["obligations"] + proofTR["obligations"] + proofI["obligations"] + proofTI["obligations"] + proofPop["obligations"] + proofDiv["obligations"] + proofDC["obligations"] + proofDI["obligations"],
+        "discharged": proof["discharged"] + proofP["discharged"] + proofT["discharged"] + proofR["discharged"] + proofTR["discharged"] + proofI["discharged"] + proofTI["discharged"] + proofPop["discharged"] + proofDiv["discharged"] + proofDC["discharged"] + proofDI["discharged"],
         "checker_cmd": "lake build SimuVerif.Properties.C14 SimuVerif.Audit.C14 (+ leanchecker in the thorough tier)",
         "trusted_base": vlib.TRUSTED_COMMON + [
             "the stages are assembled into one executable model of solver::run_iteration for a single free cell AND for tissues of interacting epithelial cells (contact search on the re-anchored grid, coupling pass, polarisation, node normals, forces, integrator), bit-identical to the real solver (1 thread) while no cell divides / is removed and all edges stay in the refinement band; tissueRun_translate / tissueRun_observables / domain_translate proved for all such tissues with closed meshes (hypotheses TissueSetup, Wf evaluated on every instance); outside that domain (remeshing, division, removal) only the stage theorems + the two-run oracle; the loops and bindings of Model/Tissue.lean are tied to the code by the differential run (single-thread search order), its arithmetic is Gen.*",
@@ -328,8 +391,8 @@ def run(ctx):
             "the REMOVAL of the cells below their minimum volume is a step of the assembled tissue model (Model/TissueP.lean: the remove_if predicate as regenerated from the lambda, on the volume stored by apply_internal_forces; erase and renumbering in the order extracted from solver.cpp; ids / local ids / max_cell_id_ carried; stale couplings of survivors kept as the code keeps them), bit-identical to the real solver over the iterations that follow; tissueIterationP_translate / tissueRunP_translate / tissueRunP_observables / domainTP_translate / population_after_removal / tissueRunP_invariants proved on the domain stepOkTP",
             "the division round of cell_divider::run AND the whole cell_divider::divide_cell are functions of the assembled model (Model/TissueD.lean, Model/TissueD2.lean: schedule, readiness, rebase, compute_centroid on the cached areas, C09's cut / divide_faces / coarse triangulation / map to the plane and back, create_daughter_cells with initialize_cell_properties incl. the flood fill of the orientation, refine_mesh of both daughters, halved targets, ids and list bookkeeping); inputs per call: the axis the eigen-solver returned and the interface triangulation D (2-D Poisson points + Delaunay triangles), recorded from the real run through a shadow evaluation of the real public stages under a harness-controlled clock; bit-identical incl. every double of the daughters as returned, over three generations; divideCellM_translate / tissueIterationD2_translate / tissueRunD2_translate proved on the decidable domain with no hypothesis about the daughters (tissueRunD_translate_partial of the recorded-daughters model is kept as the cheaper cross-check); outside: the eigen-solver and the sampler (inputs), OpenMP order, rounding",
             "rounding is run-time only: allowed deviation per node = size*(1e-8 + iters*20 eps (r+10)), r = offset/size <= 1e5 (linear in r: the coordinates carry the shape to r*eps; no cubic term since the volume determinants are centred on a node of the cell)"],
-        "theorems": dict(list(proof["axioms"].items()) + list(proofP["axioms"].items()) + list(proofT["axioms"].items()) + list(proofR["axioms"].items()) + list(proofTR["axioms"].items()) + list(proofI["axioms"].items()) + list(proofTI["axioms"].items()) + list(proofPop["axioms"].items()) + list(proofDiv["axioms"].items()) + list(proofDC["axioms"].items())),
-        "proof_failures": proof["failures"] + proofP["failures"] + proofT["failures"] + proofR["failures"] + proofTR["failures"] + proofI["failures"] + proofTI["failures"] + proofPop["failures"] + proofDiv["failures"] + proofDC["failures"],
+        "theorems": dict(list(proof["axioms"].items()) + list(proofP["axioms"].items()) + list(proofT["axioms"].items()) + list(proofR["axioms"].items()) + list(proofTR["axioms"].items()) + list(proofI["axioms"].items()) + list(proofTI["axioms"].items()) + list(proofPop["axioms"].items()) + list(proofDiv["axioms"].items()) + list(proofDC["axioms"].items()) + list(proofDI["axioms"].items())),
+        "proof_failures": proof["failures"] + proofP["failures"] + proofT["failures"] + proofR["failures"] + proofTR["failures"] + proofI["failures"] + proofTI["failures"] + proofPop["failures"] + proofDiv["failures"] + proofDC["failures"] + proofDI["failures"],
         "assembled_tissue_iteration": tissue,
         "assembled_iteration_with_remeshing": remesh,
         "assembled_tissue_iteration_with_remeshing": tissueR,
@@ -337,6 +400,7 @@ def run(ctx):
         "assembled_tissue_iteration_with_division_round": division,
         "assembled_tissue_iteration_with_divide_cell": dividecell,
         "division_oracle": divstats.get("division_oracle"),
+        "axis_aligned_division_cell_counts": divstats.get("axis_aligned_division_cell_counts"),
         "assembled_single_cell_iteration": pipe.get("stats"), "translator": {k: v.get("sha256", v.get("error")) for k, v in gen.items()},
         "evaluations": evaluations + tissue.get("oracle_runs", 0) + len(tissue.get("scenarios", [])) + remesh.get("oracle_runs", 0) + len(remesh.get("scenarios", [])) + tissueR.get("oracle_runs", 0) + len(tissueR.get("scenarios", [])), "distinct_nontrivial": len(distinct),
         "rule": "pairs of real solver runs (generated tissues: single cell, separated, adhering, overlapping cells of mixed types; 40-300 iterations, deterministic parameters) that differ by a translation of the input file (offset/size 1e-2 .. 1e3 and 1e5, random directions, one straddling the origin); distinct = distinct (tissue, offset ratio, swap flag)",
